@@ -180,6 +180,76 @@ def checked_mul_guard(body, flow, fln, bi, t):
     return None
 
 
+def const_index_under_arity(body, flow, fln, bi, t):
+    """`coll[c]` with a constant c is safe when a dominating test on `coll.len()` guarantees len > c on the only outcome that reaches it
+    (`if elements.len() == 4`, `len >= 2`, `len < 2 { return }`)."""
+    if len(t["args"]) < 2 or t["args"][1].get("c") != "const" or "val" not in t["args"][1]:
+        return None
+    c = t["args"][1]["val"]
+    coll = flow.canon_op(t["args"][0])
+    if coll is None:
+        return None
+    for b2, si, s in body.stmts():
+        if s["k"] != "assign" or s["rv"]["k"] != "bin" or s["rv"]["op"] not in ("Eq", "Ge", "Gt", "Lt", "Le", "Ne"):
+            continue
+        if not body.dominates(b2, bi):
+            continue
+        l, r = s["rv"]["l"], s["rv"]["r"]
+        op = s["rv"]["op"]
+        if l.get("c") == "const" and op_place(r):
+            l, r = r, l
+            op = {"Ge": "Le", "Gt": "Lt", "Le": "Ge", "Lt": "Gt"}.get(op, op)
+        if r.get("c") != "const" or "val" not in r or not op_place(l):
+            continue
+        n = r["val"]
+        srcs = fln.sources(op_place(l)["l"])
+        lens = [x for x in srcs if x[0] == "call" and (x[2].get("callee") or "").split("::")[-1] == "len"]
+        if not lens or not any(flow.canon_op(x[2]["args"][0]) and flow.canon_op(x[2]["args"][0])[0] == coll[0] for x in lens):
+            continue
+        for truth in (1, 0):
+            if explore(body, [b2], want="target", targets=[bi], force={(b2, si): 1 - truth}) is not None:
+                continue   # the other outcome also reaches the sink
+            # only `truth` reaches the sink: lower bound on len under it
+            lb = None
+            if truth == 1:
+                lb = {"Eq": n, "Ge": n, "Gt": n + 1}.get(op)
+            else:
+                lb = {"Lt": n, "Le": n + 1, "Ne": n}.get(op)
+            if lb is not None and lb > c:
+                return "constant index %d under a dominating length test (len >= %d on the only outcome that reaches it)" % (c, lb)
+    return None
+
+
+def guarded_unwrap(body, flow, fln, bi, t):
+    """`lookup(k).unwrap()` is safe when a dominating `lookup'(k).is_some()` / `contains_key(k)` on the same key can only reach it on its true outcome."""
+    if not t["args"] or not op_place(t["args"][0]):
+        return None
+    srcs = fln.sources(op_place(t["args"][0])["l"])
+    look = [x for x in srcs if x[0] == "call" and (x[2].get("callee") or "").split("::")[-1] in ("get_process_mut", "get_process", "get", "get_mut")]
+    if len(look) != 1 or len(look[0][2]["args"]) < 2:
+        return None
+    key = flow.canon_op(look[0][2]["args"][1])
+    if key is None:
+        return None
+    for b2, t2 in body.calls():
+        m = (t2.get("callee") or "").split("::")[-1]
+        if m not in ("is_some", "contains_key") or not body.dominates(b2, bi):
+            continue
+        ok_key = False
+        if m == "contains_key" and len(t2["args"]) >= 2:
+            ok_key = flow.canon_op(t2["args"][1]) == key
+        elif m == "is_some" and op_place(t2["args"][0]):
+            s2 = fln.sources(op_place(t2["args"][0])["l"])
+            l2 = [x for x in s2 if x[0] == "call" and (x[2].get("callee") or "").split("::")[-1] in ("get_process_mut", "get_process", "get", "get_mut")]
+            ok_key = len(l2) == 1 and len(l2[0][2]["args"]) >= 2 and flow.canon_op(l2[0][2]["args"][1]) == key
+        if not ok_key:
+            continue
+        r = t2["dest"]["l"]
+        if all(explore(body, [(x, {r: 0})], want="target", targets=[bi], avoid=[b2]) is None for x in body.succ[b2]):
+            return "unwrap of a lookup that a dominating is_some()/contains_key() on the same key established"
+    return None
+
+
 def collect_sinks(F, key, summ=None, params=None):
     body = F.body(key)
     flow = Flow(body)
@@ -202,12 +272,13 @@ def collect_sinks(F, key, summ=None, params=None):
             c = t.get("callee") or ""
             m = c.split("::")[-1]
             if m in PANIC_CALLS and ("core::" in c or "std::" in c):
-                sinks.append(("panic:" + m, body.loc(bi), None, {}))
+                why = guarded_unwrap(body, flow, fln, bi, t) if m in ("unwrap", "expect") else None
+                sinks.append(("panic:" + m, body.loc(bi), why, {}))
             elif m in INDEX_CALLS and ("core::" in c or "alloc::" in c or "std::" in c) and len(t["args"]) >= 2 and (
                     m in ("index", "index_mut") or "vec::Vec" in c or "vec_deque" in c or "slice" in c or "::str::" in c or "string::String" in c):
                 why = None
                 if m in ("index", "index_mut"):
-                    why = guarded_index(body, flow, fln, bi, t)
+                    why = guarded_index(body, flow, fln, bi, t) or const_index_under_arity(body, flow, fln, bi, t)
                     if why is None:
                         # constant index into a collection whose length was just checked is left to the census
                         pass
